@@ -72,9 +72,36 @@ def mutants_of(src: str):
             emit(f"L{ln}: condition of `if {ast.unparse(n.test)[:40]}` forced true", lambda ns, i=i: setattr(ns[i], "test", ast.Constant(value=True)))
         if isinstance(n, ast.Call) and len(n.args) >= 2 and not _is_log(n):
             emit(f"L{ln}: first two arguments of `{ast.unparse(n.func)[:30]}` swapped", lambda ns, i=i: ns[i].args.__setitem__(slice(0, 2), [ns[i].args[1], ns[i].args[0]]))
+        if EXTRA and isinstance(n, ast.Call) and n.keywords and not _is_log(n):
+            for kidx, kw in enumerate(n.keywords):
+                if kw.arg is not None:
+                    emit(f"L{ln}: keyword argument `{kw.arg}=` of `{ast.unparse(n.func)[:30]}` dropped", lambda ns, i=i, kidx=kidx: ns[i].keywords.pop(kidx))
+        if EXTRA and isinstance(n, ast.Attribute) and n.attr in REGS and isinstance(n.value, ast.Name) and n.value.id == "self":
+            other = REGS[(REGS.index(n.attr) + 1) % len(REGS)]
+            emit(f"L{ln}: self.{n.attr} -> self.{other}", lambda ns, i=i, other=other: setattr(ns[i], "attr", other))
+        if EXTRA and hasattr(n, "body") and isinstance(getattr(n, "body"), list):
+            for bname in ("body", "orelse", "finalbody"):
+                blk = getattr(n, bname, None)
+                if isinstance(blk, list):
+                    for j in range(len(blk) - 1):
+                        if isinstance(blk[j], (ast.Expr, ast.Assign, ast.AugAssign)) and isinstance(blk[j + 1], (ast.Expr, ast.Assign, ast.AugAssign)) and not _is_doc(blk[j]):
+                            emit(f"L{getattr(blk[j], 'lineno', 0)}: statements `{ast.unparse(blk[j])[:30]}` and `{ast.unparse(blk[j + 1])[:30]}` swapped",
+                                 lambda ns, i=i, bname=bname, j=j: _swap(getattr(ns[i], bname), j))
         if isinstance(n, ast.Try) and n.finalbody:
             emit(f"L{ln}: finally-block emptied", lambda ns, i=i: setattr(ns[i], "finalbody", [ast.Pass()]))
     return out
+
+
+EXTRA = False
+REGS = ["_tasks_running", "_tasks_cancelled", "_tasks_ended"]
+
+
+def _is_doc(st):
+    return isinstance(st, ast.Expr) and isinstance(st.value, ast.Constant)
+
+
+def _swap(blk, j):
+    blk[j], blk[j + 1] = blk[j + 1], blk[j]
 
 
 def _is_log(n):
@@ -112,14 +139,20 @@ def main():
     ap.add_argument("--seed", type=int, default=0)
     ap.add_argument("--out", default=os.path.join(HERE, "out", "mutation_score.jsonl"))
     ap.add_argument("--rerun", default="", help="a previous .jsonl: only the mutants it lists as survived/undecided are run again")
+    ap.add_argument("--extra-only", action="store_true", help="only the second-generation operators (dropped keyword, swapped statements, swapped registry)")
     a = ap.parse_args()
+    global EXTRA
     rnd = random.Random(a.seed)
     todo = []
     for f in a.files.split(","):
         src = open(os.path.join(REPO, PKG, f)).read()
         # mutate the docstring-free, annotation-keeping source as it is: ast.unparse drops comments only
+        base = {d for d, _c in mutants_of(src)} if a.extra_only else set()
+        EXTRA = a.extra_only
         for desc, code in mutants_of(src):
-            todo.append((f, desc, code))
+            if desc not in base:
+                todo.append((f, desc, code))
+        EXTRA = False
     if a.rerun:
         keep = {(r["file"], r["mutant"]) for r in map(json.loads, open(a.rerun)) if r["verdict"] in ("survived", "undecided")}
         todo = [t for t in todo if (t[0], t[1]) in keep]
